@@ -1,4 +1,5 @@
 import OmbottModel.Model.Stream
+import OmbottModel.Py.IntLim
 /-
 Model of `ombott/static_stream.py`: `get_first_range`, `_file_iter_range` and the response
 assembly of `static_file` after the access checks (C17).
@@ -6,11 +7,13 @@ assembly of `static_file` after the access checks (C17).
 namespace Ombott.Range
 open Py
 
-/-- the three arithmetic branches of `get_first_range` (`ValueError` from `int()` = `none`) -/
+/-- the three arithmetic branches of `get_first_range` (`ValueError` from `int()` = `none`; `int` as
+the interpreter does it, `pyIntLim`: a numeral of more than `Gen.intMaxStrDigits` digit characters is a
+`ValueError` whatever its value) -/
 def rangeNums (s e : Str) (maxlen : Nat) : Option (Int × Int) :=
-  if s.isEmpty then (pyInt e).map fun n => (max 0 ((maxlen : Int) - n), (maxlen : Int))
-  else if e.isEmpty then (pyInt s).map fun n => (n, (maxlen : Int))
-  else match pyInt s, pyInt e with
+  if s.isEmpty then (pyIntLim e).map fun n => (max 0 ((maxlen : Int) - n), (maxlen : Int))
+  else if e.isEmpty then (pyIntLim s).map fun n => (n, (maxlen : Int))
+  else match pyIntLim s, pyIntLim e with
     | some a, some b => some (a, min (b + 1) maxlen)
     | _, _ => none
 
